@@ -55,6 +55,14 @@ pub fn run(ctx: &Ctx) -> Report {
                 names.extend(crate::engines::e6_codec::name_variants(&base));
                 rep.bump("c18/name_cases_with_near_miss_names");
             }
+            // long names that agree on a long prefix (64 to 4096 bytes) and differ behind it
+            {
+                let n = *rng.pick(&[63usize, 64, 65, 127, 128, 129, 255, 256, 1024, 4096]);
+                let common: String = (0..n).map(|i| (b'a' + (i % 26) as u8) as char).collect();
+                names.push(format!("{}x", common));
+                names.push(format!("{}y", common));
+                names.push(common);
+            }
             // names that are themselves valid addresses of this codec (an address made from a name, a humanized byte string)
             {
                 use cosmwasm_std::Api;
